@@ -97,10 +97,9 @@ def muldiv(I, res, au, bu, op, prof, deadline, symprefix=False):
         kind, r = out
         x, y, ae, be = I.path_state['in']
         def case(m):
-            ta, tb = qtext(m, x, ae), qtext(m, y, be)
-            c = {'a': ul.conc_entries(m, ae), 'b': ul.conc_entries(m, be), 'x': str(rt.mval(m, x)), 'y': str(rt.mval(m, y)), 'opname': op, 'op': 'none'}
-            if ta and tb: c.update({'op': 'query', 'text': f'({ta}) {"*" if op == "mul" else "/"} ({tb})'})
-            return c
+            ca, cb = ul.conc_entries(m, ae), ul.conc_entries(m, be); xv, yv = rt.mval(m, x), rt.mval(m, y)
+            return {'op': 'numeric_op', 'fn': op, 'a': ul.numeric_json(I, xv, ca), 'b': ul.numeric_json(I, yv, cb), 'an': ul.names_list(ca), 'bn': ul.names_list(cb),
+                    'x': str(xv), 'y': str(yv), 'opname': op, 'text': f'({qtext(m, x, ae)}) {"*" if op == "mul" else "/"} ({qtext(m, y, be)})'}
         if kind == 'panic':
             rr, m = I.model_for(None)
             if m is not None: res['candidates'].append({'role': f'{op}-panics', 'case': case(m), 'detail': f'{prof}: {r}'})
@@ -155,10 +154,9 @@ def powjob(I, res, units, prof, deadline):
         kind, r = out
         x, n, ue = I.path_state['in']
         def case(m):
-            t = qtext(m, x, ue)
-            c = {'a': ul.conc_entries(m, ue), 'x': str(rt.mval(m, x)), 'n': rt.mval(m, n), 'op': 'none'}
-            if t: c.update({'op': 'query', 'text': f'({t})^{rt.mval(m, n)}'})
-            return c
+            ca = ul.conc_entries(m, ue); xv = rt.mval(m, x); nv_ = rt.mval(m, n)
+            return {'op': 'numeric_op', 'fn': 'pow', 'a': ul.numeric_json(I, xv, ca), 'b': ul.numeric_json(I, nv_, []), 'an': ul.names_list(ca), 'x': str(xv), 'n': nv_,
+                    'text': f'({qtext(m, x, ue)})^{nv_}'}
         if kind == 'panic':
             rr, m = I.model_for(None)
             if m is not None: res['candidates'].append({'role': 'pow-panics', 'case': case(m), 'detail': f'{prof}: {r}'})
@@ -211,13 +209,13 @@ def powmisc(I, res, prof, deadline):
             if k != 'ok': return
             res['obligations'] += 1
             if r.variant == 'Err' and r.items[0].items[1].variant in ('IllegalPowerNonInteger', 'IllegalPowerUnit'): res['discharged'] += 1
-            else: res['candidates'].append({'role': 'bad-exponent-accepted', 'case': {'op': 'query', 'text': '(2 m)^(1/2)' if kind == 'nonint' else '(2 m)^(2 s)'}, 'detail': repr(r)[:200]})
+            else: res['candidates'].append({'role': 'bad-exponent-accepted', 'case': {'op': 'numeric_op', 'fn': 'pow', 'a': ul.numeric_json(I, 2, [('Meter', 1, 0)]),
+                                            'b': ul.numeric_json(I, Fraction(1, 2) if kind == 'nonint' else 2, [] if kind == 'nonint' else [('Second', 1, 0)])}, 'detail': repr(r)[:200]})
         harness.explore(I, res, entry, on_path, None, 1000, deadline)
 
 # ---------------------------------------------------------------- replay
 def confirm(c, outs):
     case = c['case']
-    if case.get('op') != 'query': return False, 'not replayable'
     for prof, o in outs.items():
         if 'panic' in o: return True, f'{prof}: panic {o["panic"]}'
         rs = o.get('ok')
@@ -228,27 +226,27 @@ def confirm(c, outs):
             continue
         x = Fraction(case['x'])
         if 'n' in case:
-            n = case['n']; a = [tuple(e) for e in case['a']]
+            n = case['n']; a = [tuple(e) for e in case['an']]
             if x == 0 and n < 0:
                 if 'ok' in r: return True, f'{prof}: 0^{n} gave {r["ok"]["value"]} instead of an error'
                 continue
             if 'err' in r: return True, f'{prof}: refused: {r["err"]}'
             want = x ** n
             got = rt.parse_frac(r['ok']['value']); R = unit_entries(r['ok']['unit'])
-            if got * U.si_factor(R) != (x * U.si_factor(a)) ** n: return True, f'{prof}: SI value {got * U.si_factor(R)} instead of {(x * U.si_factor(a)) ** n} (result {got} {r["ok"]["unit_text"]})'
+            if got * ul.decl_si_factor(R) != (x * ul.decl_si_factor(a)) ** n: return True, f'{prof}: SI value {got * ul.decl_si_factor(R)} instead of {(x * ul.decl_si_factor(a)) ** n} (result {got} {r["ok"]["unit_text"]})'
             wd = {b: k * n for b, k in U.dims_of_compound(a).items() if k * n}
             if U.dims_of_compound(R) != wd: return True, f'{prof}: result unit {r["ok"]["unit_text"]!r} has dimension {U.dims_of_compound(R)}, expected {wd}'
             continue
-        y = Fraction(case['y']); a = [tuple(e) for e in case['a']]; b = [tuple(e) for e in case['b']]
+        y = Fraction(case['y']); a = [tuple(e) for e in case['an']]; b = [tuple(e) for e in case['bn']]
         div = case['opname'] == 'div'
         if div and y == 0:
             if 'ok' in r: return True, f'{prof}: division by zero gave {r["ok"]["value"]}'
             continue
         if 'err' in r: return True, f'{prof}: refused: {r["err"]}'
         got = rt.parse_frac(r['ok']['value']); R = unit_entries(r['ok']['unit'])
-        want = x * U.si_factor(a) * (y * U.si_factor(b)) if not div else x * U.si_factor(a) / (y * U.si_factor(b))
+        want = x * ul.decl_si_factor(a) * (y * ul.decl_si_factor(b)) if not div else x * ul.decl_si_factor(a) / (y * ul.decl_si_factor(b))
         if any(p == 0 for _, p, _ in R): return True, f'{prof}: zero-power entry in {R}'
-        if got * U.si_factor(R) != want: return True, f'{prof}: SI value {got * U.si_factor(R)} instead of {want} (result {got} {r["ok"]["unit_text"]})'
+        if got * ul.decl_si_factor(R) != want: return True, f'{prof}: SI value {got * ul.decl_si_factor(R)} instead of {want} (result {got} {r["ok"]["unit_text"]})'
         da = U.dims_of_compound(a); db = U.dims_of_compound(b); s = -1 if div else 1
         wd = {k: da.get(k, 0) + s * db.get(k, 0) for k in set(da) | set(db)}; wd = {k: v for k, v in wd.items() if v}
         if U.dims_of_compound(R) != wd: return True, f'{prof}: dimension {U.dims_of_compound(R)} instead of {wd}'
